@@ -136,7 +136,7 @@ func (st *State) lookup(x *ssa.Lookup) Value {
 		pos := x.Pos()
 		txt := st.textAt(pos, x.X.Name()+"["+x.Index.Name()+"]")
 		st.check("index", txt, pos, And(Le(IntLit(0), idx.Tm), Lt(idx.Tm, StrLen(base.Tm))))
-		r := Value{T: types.Typ[types.Uint8], Tm: Select(StrArr(base.Tm), Add(StrOff(base.Tm), idx.Tm))}
+		r := Value{T: types.Typ[types.Uint8], Tm: Select(StrArr(base.Tm), Ix(StrOff(base.Tm), idx.Tm))}
 		st.assumeTypeInv(r)
 		return r
 	}
@@ -179,7 +179,7 @@ func (st *State) rangeNext(x *ssa.Next) Value {
 		st.assume(Implies(ok, And(Le(IntLit(0), i), Lt(i, StrLen(src.Tm)))))
 		st.assume(And(Le(IntLit(0), r), Le(r, IntLit(0x10FFFF))))
 		// ASCII bytes decode to themselves
-		b := Select(StrArr(src.Tm), Add(StrOff(src.Tm), i))
+		b := Select(StrArr(src.Tm), Ix(StrOff(src.Tm), i))
 		st.assume(Implies(And(ok, Lt(b, IntLit(128))), Eq(r, b)))
 		st.assume(Implies(And(ok, Ge(b, IntLit(128))), Ge(r, IntLit(128))))
 		return Value{T: x.Type(), Tup: []Value{{T: B, Tm: ok}, {T: types.Typ[types.Int], Tm: i}, {T: types.Typ[types.Rune], Tm: r}}}
